@@ -227,13 +227,13 @@ def run(ctx, eng):
            'through _handle_data_on_closed_stream', node=fi.node)
     fd = fi
     fi = eng.m.func(H + '_handle_data_on_closed_stream', required=False)
-    if fi is not None:
-        refill_paths = cm.normal_paths(eng.I.run(fi))
-    else:
+    # (read through the call, in the DATA handler's terms)
+    I4 = eng.interp({fi.qual}, depth=1) if fi is not None else eng.I
+    refill_paths = [p for p in cm.normal_paths(I4.run(fd)) if any(
+        e.kind == 'catch' and 'StreamClosedError' in e.names
+        for e in p.events)]
+    if fi is None:
         fi = fd     # written out in the DATA handler
-        refill_paths = [p for p in cm.normal_paths(eng.I.run(fd)) if any(
-            e.kind == 'catch' and 'StreamClosedError' in e.names
-            for e in p.events)]
     # on every path, whatever the frame carries: an empty padded DATA frame
     # still costs its padding
     ok = bool(refill_paths)
